@@ -42,6 +42,16 @@ static Scenario make_c06(std::map<std::string, long> const& cfg)
       fc.set_open_mode('w');
       sinks.push_back(F::template create_or_get_sink<FileSink>(*path, fc, FileEventNotifier{}));
     }
+    if (s.c("layout", 0) == 1)
+    {
+      // each logger lists the shared sink first and a sink of its own after it: A{S1,S2}, B{S1,S3}
+      auto sa = sinks, sb = sinks;
+      sa.push_back(std::make_shared<RecSink>(2));
+      sb.push_back(std::make_shared<RecSink>(3));
+      *la = F::create_or_get_logger("A", sa, PatternFormatterOptions{"%(message)"}, ClockSourceType::System);
+      *lb = F::create_or_get_logger("B", sb, PatternFormatterOptions{"%(message)"}, ClockSourceType::System);
+      return;
+    }
     *la = F::create_or_get_logger("A", sinks, PatternFormatterOptions{"%(message)"}, ClockSourceType::System);
     *lb = F::create_or_get_logger("B", sinks, PatternFormatterOptions{"%(message)"}, ClockSourceType::System);
   };
@@ -59,28 +69,35 @@ static Scenario make_c06(std::map<std::string, long> const& cfg)
         if (atoi(id.c_str()) == tid || grace_us > 0) must.push_back(id);
       }
     l->flush_log();
-    // ---- probe: runs on the caller before anything else happens
-    std::set<std::string> seen;
-    size_t last_write = 0, last_flush = 0, idx = 0;
-    for (auto const& r : w.recs)
+    // ---- probe: runs on the caller before anything else happens; every sink of the statement's logger counts
+    for (int sink : (s.c("layout", 0) == 1 ? std::vector<int>{1, 2, 3} : std::vector<int>{1}))
     {
-      ++idx;
-      if (r.sink != 1) continue;
-      if (r.is_flush)
-        last_flush = idx;
-      else if (!r.is_destroy)
+      std::set<std::string> seen;
+      size_t last_write = 0, last_flush = 0, idx = 0;
+      std::vector<std::string> must_here;
+      for (auto const& id : must)
+        if (sink == 1 || (sink == 2) == (atoi(id.c_str()) == 1)) must_here.push_back(id); // thread 1 logs through A{S1,S2}, the others through B{S1,S3}
+      for (auto const& r : w.recs)
       {
-        seen.insert(id_of(r.msg));
-        // only the statements that had to be visible count for the "flushed up to" clause
-        if (std::find(must.begin(), must.end(), id_of(r.msg)) != must.end()) last_write = idx;
+        ++idx;
+        if (r.sink != sink) continue;
+        if (r.is_flush)
+          last_flush = idx;
+        else if (!r.is_destroy)
+        {
+          seen.insert(id_of(r.msg));
+          // only the statements that had to be visible count for the "flushed up to" clause
+          if (std::find(must_here.begin(), must_here.end(), id_of(r.msg)) != must_here.end()) last_write = idx;
+        }
       }
+      for (auto const& id : must_here)
+        if (!seen.count(id))
+          w.fail("flush-returned-before-statement-written", "flush_log() of thread " + std::to_string(tid) + " returned while statement " + id +
+                                                              " (completed before the flush was invoked) is not at sink " + std::to_string(sink));
+      if (last_write > last_flush && !must_here.empty())
+        w.fail("flush-returned-before-sink-flushed",
+               "flush_log() of thread " + std::to_string(tid) + " returned but sink " + std::to_string(sink) + " was not flushed after its last write");
     }
-    for (auto const& id : must)
-      if (!seen.count(id))
-        w.fail("flush-returned-before-statement-written",
-               "flush_log() of thread " + std::to_string(tid) + " returned while statement " + id + " (completed before the flush was invoked) is not at the sink");
-    if (last_write > last_flush && !must.empty())
-      w.fail("flush-returned-before-sink-flushed", "flush_log() of thread " + std::to_string(tid) + " returned but the sink was not flushed after its last write");
     if (s.c("file", 0))
     {
       std::ifstream in(*path, std::ios::binary);
@@ -162,6 +179,13 @@ static Scenario make_c06(std::map<std::string, long> const& cfg)
         exp[atoi(id.c_str())].push_back(id);
       }
     check_delivery(w, 1, exp, "lost-duplicated-or-reordered");
+    if (s.c("layout", 0) == 1)
+    {
+      std::map<int, std::vector<std::string>> ea, eb;
+      for (auto const& kv : exp) (kv.first == 1 ? ea : eb)[kv.first] = kv.second;
+      check_delivery(w, 2, ea, "lost-duplicated-or-reordered");
+      check_delivery(w, 3, eb, "lost-duplicated-or-reordered");
+    }
     if (s.c("grace", 0) > 0)
     {
       // every call here stamps and enqueues in one step, so the grace premise holds trivially: global order is due
